@@ -17,7 +17,7 @@ fn block_types() -> Vec<(Vec<T>, Vec<T>)> {
     vec![(vec![T::I32], vec![T::I32]), (vec![T::I32, T::I32], vec![T::I32]), (vec![], vec![T::I32, T::I64]), (vec![T::I64], vec![T::I32]), (vec![T::I32], vec![])]
 }
 
-struct G<'a> { r: &'a mut Rng, params: Vec<T>, locals: Vec<T>, n_counters: usize, counters_used: usize, results: Vec<T>, btys: Vec<(Vec<T>, Vec<T>)>, budget: usize, dead_ops: usize, n_loops: usize, n_br: usize }
+struct G<'a> { r: &'a mut Rng, params: Vec<T>, locals: Vec<T>, n_counters: usize, counters_used: usize, results: Vec<T>, btys: Vec<(Vec<T>, Vec<T>)>, budget: usize, dead_ops: usize, n_loops: usize, n_br: usize, ext: bool, n_mem: usize, sabotage_at: Option<usize>, sabotaged: Option<&'static str> }
 #[derive(Clone)]
 struct Label { tys: Vec<T>, is_loop: bool }
 
@@ -35,8 +35,8 @@ impl<'a> G<'a> {
     }
     fn konst(&mut self, o: &mut Out, t: T) {
         match t {
-            T::I32 => { let v = *self.r.pick(&[0i32, 1, -1, 2, 3, 7, 31, 32, 33, 255, 65536, i32::MAX, i32::MIN, -128, 1000]); o.op(I::I32Const(v), &format!("W_I32Const ({})%Z", v)); }
-            T::I64 => { let v = *self.r.pick(&[0i64, 1, -1, 2, 5, 1 << 32, (1 << 32) + 7, i64::MAX, i64::MIN, -9, 1 << 40]); o.op(I::I64Const(v), &format!("W_I64Const ({})%Z", v)); }
+            T::I32 => { let v = *self.r.pick(&[0i32, 1, -1, 2, 3, 7, 31, 32, 33, 255, 65536, i32::MAX, i32::MIN, -128, 1000, 0, -1, i32::MIN, 0x80, 0x8000, 0x7f]); o.op(I::I32Const(v), &format!("W_I32Const ({})%Z", v)); }
+            T::I64 => { let v = *self.r.pick(&[0i64, 1, -1, 2, 5, 1 << 32, (1 << 32) + 7, i64::MAX, i64::MIN, -9, 1 << 40, 0, -1, i64::MIN, 63, 64, 65, 0x80, 0x8000, 0x8000_0000]); o.op(I::I64Const(v), &format!("W_I64Const ({})%Z", v)); }
         }
     }
     fn push_val(&mut self, o: &mut Out, t: T) {
@@ -65,10 +65,14 @@ impl<'a> G<'a> {
         for t in &want[k..] { self.push_val(o, *t); st.push(*t); }
     }
     fn dead(&mut self, o: &mut Out) {
-        for _ in 0..self.r.usize(3) { self.dead_ops += 1; match self.r.below(4) {
+        for _ in 0..self.r.usize(3) { self.dead_ops += 1; match self.r.below(7) {
             0 => { o.w.push(I::Nop); o.c.push("RNop 0".into()); }
             1 => { o.op(I::I32Const(9), "W_I32Const (9)%Z"); o.op(I::Drop, "W_Drop"); }
             2 => { o.op(I::Unreachable, "W_Unreachable"); }
+            // operators that take their operands from the polymorphic stack of dead code (valid there, nowhere else)
+            4 => { o.op(I::I32Add, "W_I32Add"); o.op(I::Drop, "W_Drop"); }
+            5 => { o.op(I::Drop, "W_Drop"); }
+            6 => { o.op(I::I64Const(3), "W_I64Const (3)%Z"); o.op(I::I64Mul, "W_I64Mul"); o.op(I::I32WrapI64, "W_I32WrapI64"); o.op(I::Drop, "W_Drop"); }
             _ => { o.op(I::I32Const(1), "W_I32Const (1)%Z"); o.op(I::I32Const(0), "W_I32Const (0)%Z"); o.op(I::I32DivU, "W_I32DivU"); o.op(I::Drop, "W_Drop"); } } }
     }
     /// a sequence transforming the block-local stack `st0` into `want`; labels: innermost LAST
@@ -77,16 +81,37 @@ impl<'a> G<'a> {
         let n = 1 + self.r.usize(6);
         for _ in 0..n {
             if self.budget == 0 { break; } self.budget -= 1;
+            if self.sabotage_at == Some(self.budget) && self.sabotaged.is_none() {
+                // ONE deliberate type error (for the validator model): the instruction list stays in sync with the Coq term
+                let kind = self.r.below(9);
+                match kind {
+                    0 => { o.op(I::I64Const(1), "W_I64Const (1)%Z"); o.op(I::I32Eqz, "W_I32Eqz"); st.push(T::I32); self.sabotaged = Some("i32.eqz on an i64"); }
+                    1 => { let mut b = Out::new(); b.op(I::Drop, "W_Drop"); o.w.push(I::Block(we::BlockType::Empty)); o.w.extend(b.w); o.w.push(I::End); o.c.push(format!("RBlock BT_Empty [{}] 0 0", b.c.join("; "))); self.sabotaged = Some("drop on an empty block-local stack"); }
+                    2 => { let mut b = Out::new(); b.op(I::I32Const(1), "W_I32Const (1)%Z"); b.op(I::I32Add, "W_I32Add"); b.op(I::Drop, "W_Drop"); o.w.push(I::Block(we::BlockType::Empty)); o.w.extend(b.w); o.w.push(I::End); o.c.push(format!("RBlock BT_Empty [{}] 0 0", b.c.join("; "))); self.sabotaged = Some("binary operator with one operand"); }
+                    3 => { let mut b = Out::new(); b.op(I::I64Const(5), "W_I64Const (5)%Z"); b.w.push(I::Br(0)); b.c.push("RBr 0 0".into()); o.w.push(I::Block(we::BlockType::Result(we::ValType::I32))); o.w.extend(b.w); o.w.push(I::End); o.c.push(format!("RBlock (BT_Val VT_I32) [{}] 0 0", b.c.join("; "))); st.push(T::I32); self.sabotaged = Some("br with a value of the wrong type"); }
+                    4 => { o.op(I::LocalGet(99), "W_LocalGet 99"); o.op(I::Drop, "W_Drop"); self.sabotaged = Some("local index out of range"); }
+                    5 => { o.op(I::I32Const(1), "W_I32Const (1)%Z"); o.op(I::GlobalSet(2), "W_GlobalSet 2"); self.sabotaged = Some("global.set of an immutable global"); }
+                    6 => { let mut b = Out::new(); b.op(I::I32Const(1), "W_I32Const (1)%Z"); o.op(I::I32Const(1), "W_I32Const (1)%Z"); o.w.push(I::If(we::BlockType::Result(we::ValType::I32))); o.w.extend(b.w); o.w.push(I::End); o.c.push(format!("RIf (BT_Val VT_I32) [{}] None 0 0", b.c.join("; "))); st.push(T::I32); self.sabotaged = Some("else-less if with a result"); }
+                    7 if self.ext => { o.op(I::I32Const(0), "W_I32Const (0)%Z"); o.op(I::I32Load(we::MemArg { offset: 0, align: 3, memory_index: 0 }), "W_I32Load {| wa_align := 3; wa_offset := 0; wa_memory := 0 |}"); st.push(T::I32); self.sabotaged = Some("over-aligned load"); }
+                    _ => { o.op(I::I32Const(1), "W_I32Const (1)%Z"); o.op(I::I64Const(1), "W_I64Const (1)%Z"); o.op(I::I32Add, "W_I32Add"); st.push(T::I32); self.sabotaged = Some("i32.add on (i32, i64)"); }
+                }
+            }
             let top = st.last().cloned(); let top2 = if st.len() >= 2 { Some(st[st.len() - 2]) } else { None };
-            match self.r.below(26) {
+            match self.r.below(if self.ext { 33 } else { 26 }) {
                 0..=3 => { let t = if self.r.chance(3, 4) { T::I32 } else { T::I64 }; self.push_val(&mut o, t); st.push(t); }
                 4..=6 if top.is_some() && top == top2 => { let t = top.unwrap();
-                    if t == T::I32 { let (i, c, res): (I, &str, T) = match self.r.below(15) { 0 => (I::I32Add, "W_I32Add", T::I32), 1 => (I::I32Sub, "W_I32Sub", T::I32), 2 => (I::I32Mul, "W_I32Mul", T::I32), 3 => (I::I32And, "W_I32And", T::I32), 4 => (I::I32Or, "W_I32Or", T::I32), 5 => (I::I32Xor, "W_I32Xor", T::I32),
-                            6 => (I::I32Eq, "W_I32Eq", T::I32), 7 => (I::I32Ne, "W_I32Ne", T::I32), 8 => (I::I32LtU, "W_I32LtU", T::I32), 9 => (I::I32LtS, "W_I32LtS", T::I32), 10 => (I::I32DivU, "W_I32DivU", T::I32), 11 => (I::I32RemU, "W_I32RemU", T::I32), 12 => (I::I32Shl, "W_I32Shl", T::I32), 13 => (I::I32ShrU, "W_I32ShrU", T::I32), _ => (I::I32Add, "W_I32Add", T::I32) };
-                        o.op(i, c); st.pop(); st.pop(); st.push(res); }
-                    else { let (i, c): (I, &str) = match self.r.below(6) { 0 => (I::I64Add, "W_I64Add"), 1 => (I::I64Sub, "W_I64Sub"), 2 => (I::I64Mul, "W_I64Mul"), 3 => (I::I64And, "W_I64And"), 4 => (I::I64Or, "W_I64Or"), _ => (I::I64Xor, "W_I64Xor") }; o.op(i, c); st.pop(); } }
-                7 if top == Some(T::I32) => { if self.r.chance(1, 2) { o.op(I::I32Eqz, "W_I32Eqz"); } else { o.op(I::I64ExtendI32U, "W_I64ExtendI32U"); st.pop(); st.push(T::I64); } }
-                8 if top == Some(T::I64) => { o.op(I::I32WrapI64, "W_I32WrapI64"); st.pop(); st.push(T::I32); }
+                    if t == T::I32 { let tab: [(I, &str); 25] = [(I::I32Add, "W_I32Add"), (I::I32Sub, "W_I32Sub"), (I::I32Mul, "W_I32Mul"), (I::I32And, "W_I32And"), (I::I32Or, "W_I32Or"), (I::I32Xor, "W_I32Xor"),
+                            (I::I32Eq, "W_I32Eq"), (I::I32Ne, "W_I32Ne"), (I::I32LtU, "W_I32LtU"), (I::I32LtS, "W_I32LtS"), (I::I32DivU, "W_I32DivU"), (I::I32RemU, "W_I32RemU"), (I::I32Shl, "W_I32Shl"), (I::I32ShrU, "W_I32ShrU"),
+                            (I::I32DivS, "W_I32DivS"), (I::I32RemS, "W_I32RemS"), (I::I32ShrS, "W_I32ShrS"), (I::I32Rotl, "W_I32Rotl"), (I::I32Rotr, "W_I32Rotr"), (I::I32LeS, "W_I32LeS"), (I::I32LeU, "W_I32LeU"), (I::I32GtS, "W_I32GtS"), (I::I32GtU, "W_I32GtU"), (I::I32GeS, "W_I32GeS"), (I::I32GeU, "W_I32GeU")];
+                        let k = self.r.usize(if self.ext { 25 } else { 14 }); let (i, c) = tab[k].clone(); o.op(i, c); st.pop(); }
+                    else { let tab: [(I, &str, bool); 25] = [(I::I64Add, "W_I64Add", false), (I::I64Sub, "W_I64Sub", false), (I::I64Mul, "W_I64Mul", false), (I::I64And, "W_I64And", false), (I::I64Or, "W_I64Or", false), (I::I64Xor, "W_I64Xor", false),
+                            (I::I64DivS, "W_I64DivS", false), (I::I64DivU, "W_I64DivU", false), (I::I64RemS, "W_I64RemS", false), (I::I64RemU, "W_I64RemU", false), (I::I64Shl, "W_I64Shl", false), (I::I64ShrS, "W_I64ShrS", false), (I::I64ShrU, "W_I64ShrU", false), (I::I64Rotl, "W_I64Rotl", false), (I::I64Rotr, "W_I64Rotr", false),
+                            (I::I64Eq, "W_I64Eq", true), (I::I64Ne, "W_I64Ne", true), (I::I64LtS, "W_I64LtS", true), (I::I64LtU, "W_I64LtU", true), (I::I64LeS, "W_I64LeS", true), (I::I64LeU, "W_I64LeU", true), (I::I64GtS, "W_I64GtS", true), (I::I64GtU, "W_I64GtU", true), (I::I64GeS, "W_I64GeS", true), (I::I64GeU, "W_I64GeU", true)];
+                        let k = self.r.usize(if self.ext { 25 } else { 6 }); let (i, c, cmp) = tab[k].clone(); o.op(i, c); st.pop(); if cmp { st.pop(); st.push(T::I32); } } }
+                7 if top == Some(T::I32) => { let tab: [(I, &str, bool); 8] = [(I::I32Eqz, "W_I32Eqz", false), (I::I64ExtendI32U, "W_I64ExtendI32U", true), (I::I32Clz, "W_I32Clz", false), (I::I32Ctz, "W_I32Ctz", false), (I::I32Popcnt, "W_I32Popcnt", false), (I::I32Extend8S, "W_I32Extend8S", false), (I::I32Extend16S, "W_I32Extend16S", false), (I::I64ExtendI32S, "W_I64ExtendI32S", true)];
+                    let k = self.r.usize(if self.ext { 8 } else { 2 }); let (i, c, to64) = tab[k].clone(); o.op(i, c); if to64 { st.pop(); st.push(T::I64); } }
+                8 if top == Some(T::I64) => { let tab: [(I, &str, bool); 8] = [(I::I32WrapI64, "W_I32WrapI64", true), (I::I64Eqz, "W_I64Eqz", true), (I::I64Clz, "W_I64Clz", false), (I::I64Ctz, "W_I64Ctz", false), (I::I64Popcnt, "W_I64Popcnt", false), (I::I64Extend8S, "W_I64Extend8S", false), (I::I64Extend16S, "W_I64Extend16S", false), (I::I64Extend32S, "W_I64Extend32S", false)];
+                    let k = self.r.usize(if self.ext { 8 } else { 1 }); let (i, c, to32) = tab[k].clone(); o.op(i, c); if to32 { st.pop(); st.push(T::I32); } }
                 9..=10 if top.is_some() => { let t = top.unwrap(); match self.r.below(4) {
                     0 => { let l = self.local_of(t); o.op(I::LocalSet(l), &format!("W_LocalSet {}", l)); st.pop(); }
                     1 => { let l = self.local_of(t); o.op(I::LocalTee(l), &format!("W_LocalTee {}", l)); }
@@ -150,6 +175,30 @@ impl<'a> G<'a> {
                 20 if self.r.chance(1, 3) => { // return with the results on top (and possibly more below)
                     let rs = self.results.clone(); for t in &rs { self.push_val(&mut o, *t); } o.op(I::Return, "W_Return"); self.dead(&mut o); return o; }
                 21 if self.r.chance(1, 6) => { o.op(I::Unreachable, "W_Unreachable"); self.dead(&mut o); return o; }
+                26 | 27 if self.ext => { // load: address constant (mostly in bounds, sometimes at / beyond the end), offset immediate
+                    let a = if self.r.chance(1, 10) { *self.r.pick(&[65533i32, 65535, 65536, 70000, -1, -4]) } else { *self.r.pick(&[0i32, 1, 2, 8, 100, 1000, 4096, 65520, 65528]) }; let off = if self.r.chance(1, 12) { 65500u64 } else { *self.r.pick(&[0u64, 0, 0, 1, 4, 8, 100]) };
+                    o.op(I::I32Const(a), &format!("W_I32Const ({})%Z", a));
+                    let tab: [(&str, u32, T); 14] = [("I32Load", 2, T::I32), ("I64Load", 3, T::I64), ("I32Load8S", 0, T::I32), ("I32Load8U", 0, T::I32), ("I32Load16S", 1, T::I32), ("I32Load16U", 1, T::I32), ("I64Load8S", 0, T::I64), ("I64Load8U", 0, T::I64), ("I64Load16S", 1, T::I64), ("I64Load16U", 1, T::I64), ("I64Load32S", 2, T::I64), ("I64Load32U", 2, T::I64), ("I32Load", 2, T::I32), ("I64Load", 3, T::I64)];
+                    let (nm, nat, t) = tab[self.r.usize(14)]; let al = self.r.usize(nat as usize + 1) as u32; let m = we::MemArg { offset: off, align: al, memory_index: 0 };
+                    let i = match nm { "I32Load" => I::I32Load(m), "I64Load" => I::I64Load(m), "I32Load8S" => I::I32Load8S(m), "I32Load8U" => I::I32Load8U(m), "I32Load16S" => I::I32Load16S(m), "I32Load16U" => I::I32Load16U(m), "I64Load8S" => I::I64Load8S(m), "I64Load8U" => I::I64Load8U(m),
+                        "I64Load16S" => I::I64Load16S(m), "I64Load16U" => I::I64Load16U(m), "I64Load32S" => I::I64Load32S(m), _ => I::I64Load32U(m) };
+                    o.op(i, &format!("W_{} {{| wa_align := {}; wa_offset := {}; wa_memory := 0 |}}", nm, al, off)); st.push(t); self.n_mem += 1; }
+                28 | 29 if self.ext => { // store: address constant, value of the right type
+                    let a = if self.r.chance(1, 10) { *self.r.pick(&[65533i32, 65535, 65536, -1]) } else { *self.r.pick(&[0i32, 1, 2, 8, 100, 1000, 4096, 65520, 65528]) }; let off = *self.r.pick(&[0u64, 0, 0, 1, 4, 8, 100]);
+                    let tab: [(&str, u32, T); 9] = [("I32Store", 2, T::I32), ("I64Store", 3, T::I64), ("I32Store8", 0, T::I32), ("I32Store16", 1, T::I32), ("I64Store8", 0, T::I64), ("I64Store16", 1, T::I64), ("I64Store32", 2, T::I64), ("I32Store", 2, T::I32), ("I64Store", 3, T::I64)];
+                    let (nm, nat, t) = tab[self.r.usize(9)]; let al = self.r.usize(nat as usize + 1) as u32; let m = we::MemArg { offset: off, align: al, memory_index: 0 };
+                    o.op(I::I32Const(a), &format!("W_I32Const ({})%Z", a)); self.push_val(&mut o, t);
+                    let i = match nm { "I32Store" => I::I32Store(m), "I64Store" => I::I64Store(m), "I32Store8" => I::I32Store8(m), "I32Store16" => I::I32Store16(m), "I64Store8" => I::I64Store8(m), "I64Store16" => I::I64Store16(m), _ => I::I64Store32(m) };
+                    o.op(i, &format!("W_{} {{| wa_align := {}; wa_offset := {}; wa_memory := 0 |}}", nm, al, off)); self.n_mem += 1; }
+                30 if self.ext => { if self.r.chance(1, 2) { o.op(I::MemorySize(0), "W_MemorySize 0"); } else { let d = *self.r.pick(&[0i32, 1, 1, 2, 5, -1]); o.op(I::I32Const(d), &format!("W_I32Const ({})%Z", d)); o.op(I::MemoryGrow(0), "W_MemoryGrow 0"); } st.push(T::I32); self.n_mem += 1; }
+                31 | 32 if self.ext => { // directed: a division / remainder whose divisor is a boundary constant (0, -1, 1, 2) and whose dividend may be the most negative number
+                    let t = if self.r.chance(1, 2) { T::I32 } else { T::I64 };
+                    if self.r.chance(1, 3) { if t == T::I32 { o.op(I::I32Const(i32::MIN), &format!("W_I32Const ({})%Z", i32::MIN)); } else { o.op(I::I64Const(i64::MIN), &format!("W_I64Const ({})%Z", i64::MIN)); } } else { self.push_val(&mut o, t); }
+                    let d = *self.r.pick(&[0i64, -1, 1, 2, -2, 7]);
+                    if t == T::I32 { o.op(I::I32Const(d as i32), &format!("W_I32Const ({})%Z", d)); } else { o.op(I::I64Const(d), &format!("W_I64Const ({})%Z", d)); }
+                    let (i, c): (I, &str) = if t == T::I32 { match self.r.below(4) { 0 => (I::I32DivS, "W_I32DivS"), 1 => (I::I32DivU, "W_I32DivU"), 2 => (I::I32RemS, "W_I32RemS"), _ => (I::I32RemU, "W_I32RemU") } }
+                        else { match self.r.below(4) { 0 => (I::I64DivS, "W_I64DivS"), 1 => (I::I64DivU, "W_I64DivU"), 2 => (I::I64RemS, "W_I64RemS"), _ => (I::I64RemU, "W_I64RemU") } };
+                    o.op(i, c); st.push(t); }
                 22 | 23 => { // directed: an OUTER value, then a block that branches to its own end with surplus values above the label height, then an
                     // operator that consumes the outer value together with the block's result (a machine that does not unwind gets this wrong)
                     self.push_val(&mut o, T::I32); 
@@ -177,9 +226,9 @@ impl<'a> G<'a> {
 }
 
 pub fn gen_main(args: &[String]) {
-    let dir = &args[0]; let seed: u64 = args[1].parse().unwrap(); let n: usize = args[2].parse().unwrap();
+    let dir = &args[0]; let seed: u64 = args[1].parse().unwrap(); let n: usize = args[2].parse().unwrap(); let ext = args.get(3).map(|s| s == "ext").unwrap_or(false); let sabotage = args.get(4).map(|s| s == "sabotage").unwrap_or(false);
     std::fs::create_dir_all(dir).unwrap();
-    let mut r = Rng::new(seed ^ 0xC01C0DE);
+    let mut r = Rng::new(seed ^ 0xC01C0DE); let mut n_mem = 0usize;
     let mut index = vec![]; let (mut n_ops, mut n_loops, mut n_br, mut n_dead, mut n_panics) = (0usize, 0usize, 0usize, 0usize, 0usize);
     for k in 0..n {
         let np = r.usize(4); let params: Vec<T> = (0..np).map(|_| if r.chance(2, 3) { T::I32 } else { T::I64 }).collect();
@@ -187,25 +236,36 @@ pub fn gen_main(args: &[String]) {
         let n_counters = 3;
         let locals: Vec<T> = vec![T::I32, T::I64, T::I32, T::I64, T::I32, T::I32, T::I32];   // the last three are loop counters
         let btys = block_types();
-        let mut g = G { r: &mut r, params: params.clone(), locals: locals.clone(), n_counters, counters_used: 0, results: results.clone(), btys: btys.clone(), budget: 60, dead_ops: 0, n_loops: 0, n_br: 0 };
+        let r_sab = r.chance(2, 3); let sab_at = 59 - r.usize(7);
+        let mut g = G { r: &mut r, params: params.clone(), locals: locals.clone(), n_counters, counters_used: 0, results: results.clone(), btys: btys.clone(), budget: 60, dead_ops: 0, n_loops: 0, n_br: 0, ext, n_mem: 0, sabotage_at: if sabotage && r_sab { Some(sab_at) } else { None }, sabotaged: None };
         let mut labels = vec![Label { tys: results.clone(), is_loop: false }];
         let body = g.seq(&mut labels, vec![], &results, 0);
-        n_ops += body.w.len(); n_loops += g.n_loops; n_br += g.n_br; n_dead += g.dead_ops;
+        let sabotaged = g.sabotaged;
+        n_mem += g.n_mem; n_ops += body.w.len(); n_loops += g.n_loops; n_br += g.n_br; n_dead += g.dead_ops;
         // the module
         let mut m = we::Module::new();
         let mut t = we::TypeSection::new(); t.function(params.iter().map(|x| vt(*x)), results.iter().map(|x| vt(*x)));
         for (p, q) in &btys { t.function(p.iter().map(|x| vt(*x)), q.iter().map(|x| vt(*x))); }
         m.section(&t);
         let mut f = we::FunctionSection::new(); f.function(0); m.section(&f);
+        if ext { let mut ms = we::MemorySection::new(); ms.memory(we::MemoryType { minimum: 1, maximum: Some(3), memory64: false, shared: false, page_size_log2: None }); m.section(&ms); }
         let g0 = *r.pick(&[0i32, 5, -3, 1 << 20]); let g1 = *r.pick(&[0i64, 9, -1, 1 << 35]);
         let mut gs = we::GlobalSection::new();
         gs.global(we::GlobalType { val_type: we::ValType::I32, mutable: true, shared: false }, &we::ConstExpr::i32_const(g0));
         gs.global(we::GlobalType { val_type: we::ValType::I64, mutable: true, shared: false }, &we::ConstExpr::i64_const(g1));
+        gs.global(we::GlobalType { val_type: we::ValType::I32, mutable: false, shared: false }, &we::ConstExpr::i32_const(7));
         m.section(&gs);
-        let mut e = we::ExportSection::new(); e.export("f", we::ExportKind::Func, 0); e.export("g0", we::ExportKind::Global, 0); e.export("g1", we::ExportKind::Global, 1); m.section(&e);
+        let mut e = we::ExportSection::new(); e.export("f", we::ExportKind::Func, 0); e.export("g0", we::ExportKind::Global, 0); e.export("g1", we::ExportKind::Global, 1); if ext { e.export("m", we::ExportKind::Memory, 0); } m.section(&e);
         let mut c = we::CodeSection::new(); let mut wf = we::Function::new(locals.iter().map(|x| (1u32, vt(*x))));
         for i in &body.w { wf.instruction(i); } wf.instruction(&I::End); c.function(&wf); m.section(&c);
         let wasm = m.finish();
+        if sabotage { let verdict = crate::amod::validate(&wasm, crate::env::walrus_features(false));
+            let tys_coq = { let mut v = vec![format!("([{}], [{}])", params.iter().map(|x| coq_vt(*x)).collect::<Vec<_>>().join("; "), results.iter().map(|x| coq_vt(*x)).collect::<Vec<_>>().join("; "))];
+                for (p, q) in &btys { v.push(format!("([{}], [{}])", p.iter().map(|x| coq_vt(*x)).collect::<Vec<_>>().join("; "), q.iter().map(|x| coq_vt(*x)).collect::<Vec<_>>().join("; "))); } format!("[{}]", v.join("; ")) };
+            index.push(Json::obj(vec![("id", Json::s(format!("{:05}", k))), ("valid", Json::Bool(verdict.is_ok())), ("why", Json::s(verdict.err().unwrap_or_default())), ("sabotage", Json::s(sabotaged.unwrap_or(""))),
+                ("locals", Json::Arr(params.iter().chain(locals.iter()).map(|x| Json::s(coq_vt(*x))).collect())), ("results", Json::Arr(results.iter().map(|x| Json::s(coq_vt(*x))).collect())),
+                ("has_mem", Json::Bool(ext)), ("tys", Json::s(tys_coq)), ("body", Json::s(format!("[{}]", body.c.join("; "))))]));
+            continue; }
         if crate::amod::validate(&wasm, crate::env::walrus_features(false)).is_err() {
             if std::env::var("VH_DEBUG").is_ok() { eprintln!("invalid generated core module {}: {:?}", k, crate::amod::validate(&wasm, crate::env::walrus_features(false))); }
             continue; }
@@ -221,8 +281,8 @@ pub fn gen_main(args: &[String]) {
             for (p, q) in &btys { v.push(format!("([{}], [{}])", p.iter().map(|x| coq_vt(*x)).collect::<Vec<_>>().join("; "), q.iter().map(|x| coq_vt(*x)).collect::<Vec<_>>().join("; "))); } format!("[{}]", v.join("; ")) };
         index.push(Json::obj(vec![("id", Json::s(id)), ("calls", Json::Arr(calls)),
             ("params", Json::Arr(params.iter().map(|x| Json::s(coq_vt(*x))).collect())), ("locals", Json::Arr(locals.iter().map(|x| Json::s(coq_vt(*x))).collect())),
-            ("results", Json::Arr(results.iter().map(|x| Json::s(coq_vt(*x))).collect())), ("g0", Json::s(g0.to_string())), ("g1", Json::s(g1.to_string())),
+            ("results", Json::Arr(results.iter().map(|x| Json::s(coq_vt(*x))).collect())), ("g0", Json::s(g0.to_string())), ("g1", Json::s(g1.to_string())), ("pages", Json::u(if ext { 1 } else { 0 })), ("maxpages", Json::u(if ext { 3 } else { 0 })),
             ("tys", Json::s(tys_coq)), ("body", Json::s(format!("[{}]", body.c.join("; "))))]));
     }
-    std::fs::write(format!("{}/index.json", dir), Json::obj(vec![("cases", Json::Arr(index)), ("operators", Json::u(n_ops)), ("loops", Json::u(n_loops)), ("branches", Json::u(n_br)), ("dead_ops", Json::u(n_dead)), ("walrus_failures", Json::u(n_panics))]).to_string()).unwrap();
+    std::fs::write(format!("{}/index.json", dir), Json::obj(vec![("cases", Json::Arr(index)), ("operators", Json::u(n_ops)), ("loops", Json::u(n_loops)), ("branches", Json::u(n_br)), ("dead_ops", Json::u(n_dead)), ("memory_ops", Json::u(n_mem)), ("walrus_failures", Json::u(n_panics))]).to_string()).unwrap();
 }
